@@ -162,6 +162,9 @@ REGEX_SPECS = [
     # (F52) the comma-list loop of DoTraversalAux drops the escape characters although DoDirectChildLookup unescapes the key again
     ("c05_uvkeys_as_found", "reflector/StorageReflectSession.cpp",
      r"scratchStr\.Clear\(\);\s*\}\s*\}\s*prevCharWasEscape = curCharIsEscape;", "flag"),
+    # (F63) the comma-list loop of DoTraversalAux skips empty items although the pattern matches the empty name
+    ("c05_uvempty_as_found", "reflector/StorageReflectSession.cpp",
+     r"else if \(scratchStr\.HasChars\(\)\)\s*\{\s*if \(DoDirectChildLookup\(data, node, scratchStr", "flag"),
     ("c05_default_flags_gw_and_nb", "reflector/DumbReflectSession.cpp",
      r"_defaultRoutingFlags\(MUSCLE_ROUTING_FLAG_GATEWAY_TO_NEIGHBORS,\s*MUSCLE_ROUTING_FLAG_NEIGHBORS_TO_GATEWAY\)", "flag"),
     # --- C07: the index JettisonOutgoingResults passes to RemoveData in its per-field item loop (finding F4: `i`, the queue
